@@ -1,5 +1,5 @@
 \* THOROUGH: convergence + safety of the repaired design, chain <= 4.
-\* Measured: 255 039 distinct states, depth 61.
+\* Measured: 519 059 distinct states, depth 67.
 CONSTANTS
   InitLen = 3
   MaxLen = 4
